@@ -253,7 +253,12 @@ C08Name(n) ==
           /\ names'[n].owner = names[n].owner
           /\ names'[n].data = names[n].data
           /\ names'[n].recs = names[n].recs
-C08Step == \A n \in DOMAIN names : C08Name(n)
+\* consent is recorded in the sale table: a listing appears or changes only through a successful List message of the
+\* account it names as lister (no other handler may write or re-attribute a listing), and its price is the one listed
+C08Sale == \A n \in DOMAIN sale' :
+             (n \notin DOMAIN sale \/ sale'[n] # sale[n]) =>
+                LET l == last' IN l.a = "list" /\ l.ok /\ l.n = n /\ sale'[n].lister = l.s /\ sale'[n].price = l.p
+C08Step == (\A n \in DOMAIN names : C08Name(n)) /\ C08Sale
 
 \* C16 (step)
 C16Step ==
